@@ -356,7 +356,7 @@ func run(c *core.Ctx) {
 	c.SetExhaustive("cells x types x pointer depths x corpus")
 	c.Sample(kase{Template: util.Q(cells[9].tmpl), Type: "HTML", Ptr: 0, Contents: util.Q(corpus[4])})
 	r := c.Rng("soup")
-	n := c.N(60000, 2000000) / c.NShards
+	n := c.N(300000, 4000000) / c.NShards
 	for i := 0; i < n; i++ {
 		cl := cells[r.Intn(len(cells))]
 		typ := types[r.Intn(len(types))]
